@@ -398,6 +398,34 @@ fn partial_writes(run: &Run) {
     }
 }
 
+/// Large stored files: incompressible content of several MiB under default options (one file
+/// above the small-file cap, several below it sharing a combined block), re-read independently.
+fn large_blocks(run: &Run) {
+    let mut spec = Snapshot::new();
+    spec.insert("/".into(), Node::dir());
+    for (i, (name, len)) in [("/big", (3usize << 20) + 7), ("/s1", 600_000), ("/s2", 600_000), ("/s3", 600_000), ("/s4", 600_000), ("/s5", 600_000)].iter().enumerate() {
+        let mut n = Node::file(Rng::for_case(run.seed, i as u64, 25).bytes(*len));
+        n.mtime_s = 1_600_000_000 + i as i64;
+        spec.insert((*name).into(), n);
+    }
+    let mut w = World::with_spec("c13l", spec, GenParams::small(64, 16), run.seed);
+    run.eval();
+    let r = w.backup(Opts::DEFAULT);
+    if !r.backup.as_ref().unwrap().clean() {
+        run.inconclusive(format!("large-block backup not clean: {}", r.backup.as_ref().unwrap().describe()));
+        return;
+    }
+    let raw = w.raw(true);
+    match check_format(&raw, &w.sources) {
+        Ok(c) => {
+            run.count("archive_states_checked", 1);
+            run.count("addresses_checked", c.addrs);
+            run.count("archives_with_stored_files_above_2_mib_checked", raw.blocks.values().any(|b| b.comp_len > (2 << 20)) as u64);
+        }
+        Err((sig, d)) => run.violation(format!("format:{sig}"), format!("default options, incompressible files of 3 MiB and 5 x 600 kB: {d}"), json!({"large_blocks": true})),
+    }
+}
+
 /// A band with more than 10 000 hunks crosses into the second hunk subdirectory.
 fn many_hunks(run: &Run) {
     let sc = Scratch::new("c13big");
@@ -452,10 +480,13 @@ pub fn run(tier: Tier, replay: Option<Value>) -> i32 {
     if replay.is_none() || replay.as_ref().and_then(|r| r.get("partial_writes")).is_some() {
         partial_writes(&run);
     }
+    if replay.is_none() || replay.as_ref().and_then(|r| r.get("large_blocks")).is_some() {
+        large_blocks(&run);
+    }
     run.finish(
-        "histories as in C02 with options drawn to produce every layout (1-entry hunks, 1-byte blocks, small-file cap 0/1, hunks overflowing through a combined flush), plus one band of 10 051 one-entry hunks (crossing i/00001); plus four backups run in a child process under a file-size limit of 60-700 bytes (writes that fail part-way), each followed by a backup without the limit; plus backups during which the source changes underneath (from the change callback of one entry, 1-3 files sorting after it -- already listed and stat'ed, not yet read -- are truncated, emptied, extended, replaced, removed or turned into directories: the size clause is then waived for those files, everything else must hold, and every file that held still must be recorded with its own bytes); after every archive-changing step, including interrupted backups, the harness's own reader (std::fs + raw Snappy + serde_json::Value + BLAKE2b) checks: band directory names, head and tail fields, tail hunk count == hunk files, hunk files at their canonical paths numbered 0..m-1, each hunk decodes and is non-empty, apaths valid and strictly increasing within and across hunks, kinds, addrs only on files with lengths summing to the file's size in that version's source snapshot, target exactly on symlinks, every block under its first three hex digits and named by the BLAKE2b-512 of its content, every address inside its block. Non-trivial = history producing bands with different hunk counts.",
+        "histories as in C02 with options drawn to produce every layout (1-entry hunks, 1-byte blocks, small-file cap 0/1, hunks overflowing through a combined flush), plus one band of 10 051 one-entry hunks (crossing i/00001); plus one archive made with default options from incompressible files of 3 MiB and 5 x 600 kB (stored block files above 2 MiB); plus four backups run in a child process under a file-size limit of 60-700 bytes (writes that fail part-way), each followed by a backup without the limit; plus backups during which the source changes underneath (from the change callback of one entry, 1-3 files sorting after it -- already listed and stat'ed, not yet read -- are truncated, emptied, extended, replaced, removed or turned into directories: the size clause is then waived for those files, everything else must hold, and every file that held still must be recorded with its own bytes); after every archive-changing step, including interrupted backups, the harness's own reader (std::fs + raw Snappy + serde_json::Value + BLAKE2b) checks: band directory names, head and tail fields, tail hunk count == hunk files, hunk files at their canonical paths numbered 0..m-1, each hunk decodes and is non-empty, apaths valid and strictly increasing within and across hunks, kinds, addrs only on files with lengths summing to the file's size in that version's source snapshot, target exactly on symlinks, every block under its first three hex digits and named by the BLAKE2b-512 of its content, every address inside its block. Non-trivial = history producing bands with different hunk counts.",
         &["doc/format.md says the address length key is 'length'; conserve writes and reads 'len' — the reader follows the code (noted in DESIGN.md)", "snap, serde_json, blake2-rfc trusted"],
         None,
-        &[("archive_states_checked", 100), ("states_after_interrupted_backup", 5), ("addresses_checked", 500), ("bands_with_more_than_10000_hunks", 1), ("backups_with_source_changing_underneath", 100), ("backups_under_a_file_size_limit", 3), ("victims_recorded_with_a_size_other_than_the_listed_one", 10)],
+        &[("archive_states_checked", 100), ("states_after_interrupted_backup", 5), ("addresses_checked", 500), ("bands_with_more_than_10000_hunks", 1), ("backups_with_source_changing_underneath", 100), ("backups_under_a_file_size_limit", 3), ("archives_with_stored_files_above_2_mib_checked", 1), ("victims_recorded_with_a_size_other_than_the_listed_one", 10)],
     )
 }
